@@ -43,7 +43,14 @@ OPS = [
 ALPHA = [0x00, 0x01, 0xFE, 0xFF]
 
 
+
 def shards(tier, seed):
+    from vf import engine
+
+    return engine.with_interpreter_options(_plain_shards(tier, seed), key="kind")
+
+
+def _plain_shards(tier, seed):
     out = []
     if tier == "quick":
         datas = [bytes(t) for L in range(0, 4) for t in itertools.product(ALPHA, repeat=L)]
